@@ -44,9 +44,24 @@ func genString(t *rapid.T, label string) string {
 		return rapid.String().Draw(t, label+"any")
 	case 2:
 		return rapid.SampledFrom([]string{"!type", "value", "null", "true", "0", "a.b", "a b", "ümlaut"}).Draw(t, label+"special")
+	case 3:
+		// strings shaped like the spelling of some other type: anything that
+		// normalises or coerces by shape changes them, and a string field (or a
+		// key field of any format) must keep them byte for byte
+		return rapid.SampledFrom(shapedStrings).Draw(t, label+"shaped")
 	default:
 		return string(rapid.SliceOfN(rapid.SampledFrom(strRunes), 0, 10).Draw(t, label))
 	}
+}
+
+var shapedStrings = []string{
+	"6ba7b810-9dad-11d1-80b4-00c04fd430c8", "6BA7B810-9DAD-11D1-80B4-00C04FD430C8", "6ba7b8109dad11d180b400c04fd430c8",
+	"urn:uuid:6ba7b810-9dad-11d1-80b4-00c04fd430c8", "{6ba7b810-9dad-11d1-80b4-00c04fd430c8}",
+	"0000000000000000000001", "7N42dgm5tFLK9N8MT7fHC7", "ffffffffffffffffffffffffffffffff",
+	"2020-01-01", "2020-1-1", "2020-01-01T00:00:00+01:00", "2020-01-01T00:00:00.000Z", "0001-01-01",
+	"007", "1e3", "+1", " 1", "1 ", "-0", "0x10", "1_000", "NaN", "Infinity", "1.50", ".5",
+	"AQID", "AQ==", "AQ", "TRUE", "False", "yes",
+	" x ", "\tx", "x\n", "\ufffd", "a\ufffdb", "\ufeff", "\x00", "a\x00b",
 }
 
 var int32Pool = []int64{0, 1, -1, 2, 7, math.MaxInt32, math.MinInt32, math.MaxInt32 - 1, math.MinInt32 + 1, 65536, -65536}
